@@ -56,7 +56,7 @@ func (f FloatSchema) Units() *UnitsDefinition {
 func (f FloatSchema) Unserialize(data any) (any, error) {
 	unserialized, err := floatInputMapper(data, f.UnitsValue)
 	if err != nil {
-		return 0, err
+		return 0, asConstraintError(err)
 	}
 	return unserialized, f.Validate(unserialized)
 }
